@@ -3,10 +3,11 @@ import random
 from vlib import common as C
 from vlib.framework import Corr
 from harness import layoutlib as L
+from harness import translib as T
 from harness import bigalloc as BIG
 
 META = {
-    "drivers": ["driver"],
+    "drivers": ["driver", "impcheck"],
     "rule": "case = (layout, coordinate scalar, extents, coordinate, build config); non-trivial when the box has >= 2 cells and "
             "the flat index is not 0; rw cases: (layout, coordinate scalar, storage scalar, N, M, extents), non-trivial when >= 2 cells",
     "trusted_base": ["_pdep_u64 behaves as the bit-scan `pdep` of the model (hardware; exercised in the bmi2 build, not proved)",
@@ -182,10 +183,25 @@ def evaluate(ctx, idx_cases, rw_cases, cfgs, big=False):
     return corr
 
 
+KERNEL_LAYS = {"strided_index": ("strided",), "morton_index": ("mortonT", "mortonF"), "morton_index_bmi2_off": ("mortonF",),
+               "hilbert_index": ("hilbert",)}
+
+
 def run(ctx):
     idx, rw = gen(ctx)
+    # the tie through translation (DESIGN.md §11.6): when the text of an index kernel changed, its layouts get the thorough inputs
+    tie = T.Tie(ctx, list(KERNEL_LAYS))
+    if tie.changed():
+        class Deep:
+            quick, seed = False, ctx.seed
+        lays = {l for k in tie.changed() for l in KERNEL_LAYS[k]}
+        didx, drw = gen(Deep)
+        idx += [c for c in didx if c[0] in lays]
+        rw += [c for c in drw if c[0] in lays]
     cfgs = ["dbg", "bmi2", "relbmi2"] if ctx.quick else ["dbg", "bmi2", "rel", "relbmi2"]
-    return evaluate(ctx, idx, rw, cfgs, big=True)
+    corr = evaluate(ctx, idx, rw, cfgs, big=True)
+    tie.merge(corr)
+    return corr
 
 
 def replay(ctx):
